@@ -15,6 +15,10 @@ Modelling decisions of this sidecar (each listed in props/C06.py ASSUMPTIONS / T
     for base_pairs in mapping_c): strands_sequences -> strands_value, bpseq -> bpseq_value; BpSeq.dot_bracket /
     BpSeq.all_dot_brackets (common.py, C02 / C16) -> fields dot_bracket / all_dot_brackets of the BpSeq object, about whose text
     nothing is assumed.
+  * strands_sequences (body, prefix contract strands_body): the lists inside the tuples of `result` are values written back through
+    the access path `result[-1][1]` (no alias of them exists); __generate_bpseq@numbering restates the numbering rule of the BPSEQ
+    over its locals; lemma same_numbering joins the two.  all_dot_brackets / dot_bracket: full contracts, the final
+    "\\n".join(lines) is the ASSUMED external str.join (uninterpreted function of the list).
   * Mapping2D3D.strand_offsets is a specification-only field: `offsets_ok` pins it to the prefix sums of the strand lengths
     (always satisfiable; restricts no input).
 """
@@ -469,11 +473,11 @@ class strands_body:
                 "let FLAT = snoc(FLAT, residue.one_letter_name)", "let ST = snoc(ST, len(result) - 1)",
                 "assert forall(lambda t, j: implies(0 <= t and t < len(result) - 1 and 0 <= j and j < len(result[t][1]), result[t][1][j] == FLAT[OFF[t] + j]))",
                 "assert forall(lambda j: implies(0 <= j and j < len(result[len(result) - 1][1]), result[len(result) - 1][1][j] == FLAT[OFF[len(result) - 1] + j]))"]},
-        {"when": "after", "at": "result[-1][1].append('?')", "label": "placeholder",
+        {"when": "after", "at": "result[-1][1].append(", "loop": 1, "label": "placeholder",
          "do": ["let FLAT = snoc(FLAT, '?')", "let KOF = snoc(KOF, 0 - 1)",
                 "assert forall(lambda t, j: implies(0 <= t and t < len(result) - 1 and 0 <= j and j < len(result[t][1]), result[t][1][j] == FLAT[OFF[t] + j]))",
                 "assert forall(lambda j: implies(0 <= j and j < len(result[len(result) - 1][1]), result[len(result) - 1][1][j] == FLAT[OFF[len(result) - 1] + j]))"]},
-        {"when": "after", "at": "result[-1][1].append(residue.one_letter_name)", "label": "same-strand",
+        {"when": "after", "at": "result[-1][1].append(", "loop": 0, "label": "same-strand",
          "do": ["let POS = snoc(POS, len(FLAT))", "let KOF = snoc(KOF, i)", "let FLAT = snoc(FLAT, residue.one_letter_name)",
                 "let ST = snoc(ST, len(result) - 1)",
                 "assert forall(lambda t, j: implies(0 <= t and t < len(result) - 1 and 0 <= j and j < len(result[t][1]), result[t][1][j] == FLAT[OFF[t] + j]))",
